@@ -179,3 +179,10 @@ func (d *Dataset) VerifLoadRaft(i int, nodeIds []uint64) error {
 	return d.partitions[i].loadRaft(nodeIds)
 }
 func (d *Dataset) VerifClose() { d.close() }
+
+// VerifRaft returns partition i's raft group (nil while raft is not loaded).
+func (d *Dataset) VerifRaft(i int) *raft.RaftGroup {
+	d.partitions[i].raftMu.RLock()
+	defer d.partitions[i].raftMu.RUnlock()
+	return d.partitions[i].raft
+}
